@@ -292,7 +292,29 @@ def key_term(types, v, st=None):
         for i, a in enumerate(args):
             g = ops.uf('%s_inv%d' % (name, i), I, I)
             st.assume(g(t) == a)
+    else:
+        PACK_UNDER_BINDER.add((name, len(args)))
     return t
+
+
+PACK_UNDER_BINDER = set()
+_PACK_AX = {}
+
+
+def pack_axioms():
+    """injectivity of the key packing functions that were applied under a binder (where the
+    per-term inverse facts cannot be stated): pack_inv_i(pack(a0..an)) == a_i, triggered by the
+    application itself"""
+    out = []
+    for (name, n) in sorted(PACK_UNDER_BINDER):
+        if (name, n) not in _PACK_AX:
+            f = ops.uf(name, *([I] * n + [I]))
+            xs = [z3.Int('pk_%s_%d' % (name, i)) for i in range(n)]
+            t = f(*xs)
+            body = z3.And([ops.uf('%s_inv%d' % (name, i), I, I)(t) == xs[i] for i in range(n)])
+            _PACK_AX[(name, n)] = z3.ForAll(xs, body, patterns=[t])
+        out.append(_PACK_AX[(name, n)])
+    return out
 
 
 def flat_key_args(types, v):
